@@ -1,4 +1,10 @@
-"""property -> harness table.  One entry per claimed property; see DESIGN.md section 3."""
+"""property -> harness table: one file per claimed property under tools/props/."""
+import importlib
+import os
+import sys
+
+_here = os.path.dirname(os.path.abspath(__file__))
+sys.path.insert(0, os.path.join(_here, "props"))
 
 COMMON_TRUSTED = [
     "Kani 0.68.0 (MIR -> goto-program translation, its models of std intrinsics)",
@@ -8,125 +14,16 @@ COMMON_TRUSTED = [
     "log macros are dead code in the encoded world (log::max_level() == Off)",
 ]
 
-RTPS_SHIM_FILES = [
-    "src/rtps/reader.rs", "src/rtps/writer.rs", "src/rtps/rtps_writer_proxy.rs",
-    "src/rtps/rtps_reader_proxy.rs", "src/rtps/fragment_assembler.rs",
-    "src/rtps/message_receiver.rs",
-    "src/structure/dds_cache.rs", "src/structure/cache_change.rs",
-    "src/dds/with_key/simpledatareader.rs", "src/dds/with_key/datasample_cache.rs",
-    "src/dds/with_key/datareader.rs", "src/dds/with_key/datawriter.rs",
-    "src/discovery/discovery_db.rs",
-]
-
-
-def H(name, mod, what="", bounds="", tier="quick", timeout=600, **kw):
-    d = {"name": name, "mod": mod, "what": what, "bounds": bounds, "tier": tier,
-         "timeout": timeout}
-    d.update(kw)
-    return d
-
-
 PROPS = {}
-
-# ------------------------------------------------------------------------------- C10
-_q = "dds::qos::verif_harness_qos"
-PROPS["C10"] = {
-    "title": "QoS matching = DDS request/offered rule",
-    "design_ref": "DESIGN.md section 3, C10",
-    "inject": {"src/dds/qos.rs": ["qos"]},
-    "harnesses": [
-        H("c10_full_pair", _q,
-          "compliance_failure_wrt(offered, requested) on two complete symbolic QoS sets: None <=> all 8 "
-          "DDS 1.4 request/offered rules hold; Some(p) => rule p violated",
-          "no bound on values: every policy absent or any value, durations any 64-bit tick count"),
-        H("c10_only_durability", _q, "durability alone: verdict == rule", "full width"),
-        H("c10_only_presentation", _q, "presentation alone: verdict == rule", "full width"),
-        H("c10_only_deadline", _q, "deadline alone: verdict == rule", "full width"),
-        H("c10_only_latency_budget", _q, "latency budget alone: verdict == rule", "full width"),
-        H("c10_only_ownership", _q, "ownership alone: verdict == (kinds equal)", "full width, any strength"),
-        H("c10_only_liveliness", _q, "liveliness alone: verdict == (kind >= && lease <=)", "full width"),
-        H("c10_only_reliability", _q, "reliability alone: verdict == rule", "full width"),
-        H("c10_only_destination_order", _q, "destination order alone: verdict == rule", "full width"),
-        H("c10_unmatched_policies_irrelevant", _q,
-          "history / time-based filter / resource limits / lifespan never change the verdict", "full width"),
-    ],
-    "bounds": {"values": "none (full bit-width of every field)", "unwind": 3},
-    "outside": ["policies RustDDS does not match on (partition, time-based filter, ...)",
-                "the security `property` policy (None in the harness)"],
-    "assumptions": ["the reference rule table in /verif/harness/qos.rs transcribes DDS 1.4 section 2.2.3"],
-    "explanation": "C10: QosPolicies::compliance_failure_wrt against an independent reference of the 8 rules.",
-    "technique": "Kani/CBMC bounded symbolic model checking of QosPolicies::compliance_failure_wrt (SAT verdict over all QoS pairs, full bit-width)",
-    "level_text": ("SAT-solver verdict over every pair of QoS policy sets at full bit-width (no value bound); "
-                   "the matching function is loop-free so there is no unwinding bound either. The call "
-                   "sites in reader.rs / writer.rs are covered by C11's object harnesses."),
-    "level_note": ("Trusted: Kani/CBMC/CaDiCaL, the reference table of DDS 1.4 2.2.3 written in the harness. "
-                   "Counterexamples are replayed natively through the public function before being reported."),
-}
-
-# ------------------------------------------------------------------------------- C01
-_wp = "rtps::rtps_writer_proxy::verif_harness_wproxy"
-PROPS["C01"] = {
-    "title": "reliable reader: in order, once, no holes, bytes intact",
-    "design_ref": "DESIGN.md section 3, C01",
-    "inject": {"src/rtps/rtps_writer_proxy.rs": ["wproxy"]},
-    "shim_files": RTPS_SHIM_FILES + ["src/structure/sequence_number.rs", "src/rtps/message.rs"],
-    "cap": {"quick": 4, "thorough": 6},
-    "sn_window": {"quick": 4, "thorough": 5},
-    "harnesses": [
-        H("c01_proxy_inductive_o0", _wp, "one step (DATA/GAP/GAP-range/HEARTBEAT.first, any args) from ANY valid proxy state: known set == pre ∪ op, frontier monotone and == lowest unknown SN, invariant kept", "window origin 0, width W, CAP live entries"),
-        H("c01_proxy_inductive_o31", _wp, "same, window across 2^31", "origin 2^31-4"),
-        H("c01_proxy_inductive_o32", _wp, "same, window across 2^32 (high/low word boundary of the wire format)", "origin 2^32-4"),
-        H("c01_proxy_inductive_o62", _wp, "same, near the top of the i64 range", "origin 2^62"),
-        H("c01_proxy_sequence_k3", _wp, "3 arbitrary operations from the initial proxy", "k=3, window W"),
-        H("c01_proxy_sequence_k5", _wp, "5 arbitrary operations from the initial proxy", "k=5, window W", tier="thorough", timeout=2400),
-    ],
-    "bounds": {"sn_window": "4 (quick) / 5 (thorough)", "CAP": "4 / 6 live map entries", "unwind": 11,
-               "window_origins": [0, "2^31-4", "2^32-4", "2^62"]},
-    "outside": ["window origins outside the grid", "more than CAP simultaneously out-of-order SNs per writer"],
-    "assumptions": ["std BTreeMap replaced by the array-backed shim under cfg(kani) (validated by SELFTEST; counterexamples replayed on std containers)"],
-    "trusted": ["/verif/shim/collections.rs (BTreeMap/BTreeSet stand-in)"],
-    "explanation": "C01 kernel tier: RtpsWriterProxy state machine.",
-    "technique": "Kani/CBMC bounded symbolic model checking: inductive step from an arbitrary valid RtpsWriterProxy state + operation sequences from the initial state",
-    "level_text": "SAT-solver verdict over all operation arguments and all valid pre-states inside the stated window/CAP bounds.",
-    "level_note": "Trusted: Kani/CBMC/CaDiCaL, the container shim (validated separately), the representation invariant stated in the harness.",
-}
-
-# ------------------------------------------------------------------------------- C03
-_rd = "rtps::reader::verif_harness_reader"
-ENV_INJECT = {
-    "src/network/udp_sender.rs": ["env_udp"],
-    "src/mio_source.rs": ["env_mio"],
-    "src/structure/time.rs": ["env_time"],
-}
-ENV_STUBS = [
-    "stub: Timestamp::now -> strictly increasing counter (TopicCache documents that it assumes unique receive timestamps)",
-    "stub: std::time::Instant::now -> constant (only the mio-extras Timer asks)",
-    "stub: mio_source::make_poll_channel / PollEventSender::send / PollEventSource::drain -> dummy descriptors, no-ops",
-    "stub: std::fmt::format -> empty String",
-    "stub: Reader::encode_and_send -> records the Message value built by the real code (serialisation is C14)",
-    "environment: mio-extras Timer built with 4 slots instead of 256; UDPSender around an unused descriptor",
-]
-PROPS["C03"] = {
-    "title": "ACKNACKs are truthful",
-    "design_ref": "DESIGN.md section 3, C03",
-    "inject": dict(ENV_INJECT, **{"src/rtps/reader.rs": ["reader"], "src/rtps/rtps_writer_proxy.rs": ["wproxy"],
-                                  "src/structure/sequence_number.rs": ["seqnum"]}),
-    "shim_files": RTPS_SHIM_FILES + ["src/structure/sequence_number.rs", "src/rtps/message.rs"],
-    "cap": {"quick": 4, "thorough": 6},
-    "sn_window": {"quick": 4, "thorough": 5},
-    "harnesses": [
-        H("c03_from_base_and_set_two", "structure::sequence_number::verif_harness_seqnum", "from_base_and_set(b,{b+x,b+y}) == set ∩ [b,b+256)", "x<y in 0..400, b in 1..2^40"),
-        H("c03_reader_hb_fresh", _rd, "fresh matched writer, HEARTBEAT(first,last,final) symbolic: answered iff required, base <= first, requested SNs inside [first,last], lowest missing requested", "first in 1..4, last in first-1..4"),
-    ],
-    "bounds": {"unwind": 14},
-    "outside": [],
-    "assumptions": ENV_STUBS,
-    "trusted": ["/verif/shim/collections.rs", "/verif/env, /verif/harness/env_*.rs (environment stand-ins)"],
-    "explanation": "C03: Reader::handle_heartbeat_msg on the real Reader object.",
-    "technique": "Kani/CBMC bounded symbolic model checking of the real Reader object (handle_heartbeat_msg and friends) with environment stubs",
-    "level_text": "SAT-solver verdict over all HEARTBEAT/DATA/GAP arguments inside the stated window.",
-    "level_note": "Trusted: Kani/CBMC/CaDiCaL, container shim, environment stubs listed in evidence.",
-}
+for _f in sorted(os.listdir(os.path.join(_here, "props"))):
+    if _f.startswith("C") and _f.endswith(".py"):
+        try:
+            _m = importlib.import_module(_f[:-3])
+            PROPS[_f[:-3]] = _m.PROP
+        except Exception as _e:  # one broken table file must not take the other checks down
+            print(f"table: cannot load props/{_f}: {_e!r}", file=sys.stderr)
+    elif _f == "SELFTEST.py":
+        PROPS["SELFTEST"] = importlib.import_module("SELFTEST").PROP
 
 # ------------------------------------------------------------------------- not applicable
 NOT_APPLICABLE = [
@@ -135,9 +32,9 @@ NOT_APPLICABLE = [
     {"property_id": "C16", "reason": "every clause is decided by AES-GCM/GMAC inside ring/OpenSSL (FFI + assembly): there is no body for the solver to encode, and a nondeterministic or toy stub assumes the property away or yields false alarms"},
     {"property_id": "C19", "reason": "X.509 chain validation, signatures and DH/ECDH go through OpenSSL/ring FFI over files on disk; the three-message handshake cannot be advanced symbolically without them"},
 ]
-# properties planned but not yet implemented are listed here until their check exists
 _PLANNED = ["C01", "C02", "C03", "C04", "C05", "C06", "C08", "C09", "C11", "C12", "C14", "C15", "C17", "C18", "C20"]
+CLAIMED = sorted(p for p in PROPS if p != "SELFTEST" and PROPS[p].get("ready", True))
 for _p in _PLANNED:
-    if _p not in PROPS:
+    if _p not in CLAIMED:
         NOT_APPLICABLE.append({"property_id": _p, "reason": "check not built yet in this revision of /verif (planned, see DESIGN.md section 3); not claimed until its harnesses exist and pass on the pinned tree"})
 NOT_APPLICABLE.sort(key=lambda e: e["property_id"])
